@@ -39,7 +39,15 @@ CLASSES = {
     "OneByOneConvolution": (lambda: CV.OneByOneConvolution(2, using_cache=True), (2, 1, 2)),
 }
 
-OPS = ("train", "eval", "use_cache_on", "use_cache_off", "forward", "inverse", "param_update", "load_state_dict")
+class _Parent(torch.nn.Module):
+    """minimal enclosing container (what CompositeTransform / Flow are to a linear transform for state-dict loading)"""
+
+    def __init__(self, child):
+        super().__init__()
+        self.child = child
+
+
+OPS = ("train", "eval", "use_cache_on", "use_cache_off", "forward", "inverse", "param_update", "load_state_dict", "load_state_dict_via_parent")
 
 
 def states():
@@ -168,6 +176,13 @@ def job(cfg):
                 new = fresh_state_dict(m, "ld")
                 m.load_state_dict(new)
                 asm = asm + preconditions({k.replace(".", "_"): v for k, v in m.state_dict().items() if isinstance(v, Sym)})
+            elif op == "load_state_dict_via_parent":
+                # the state dict of an enclosing container (a flow / composite) is loaded: torch then calls only the
+                # child's _load_from_state_dict hook, never its public load_state_dict
+                new = fresh_state_dict(m, "ldp")
+                parent = _Parent(m)
+                parent.load_state_dict({"child." + k: v for k, v in new.items()})
+                asm = asm + preconditions({k.replace(".", "_"): v for k, v in m.state_dict().items() if isinstance(v, Sym)})
         except explore.NotModelled as e:
             jr["inconclusive"].append({"query": name, "notmodelled": str(e)})
             solver.close()
@@ -241,7 +256,7 @@ def report(jr, cname, state, op, relation, err):
     history = witness_prefix(state) + [op]
     # a broken invariant (e.g. a cache that survives train()) only becomes observable after further operations:
     # try the witness history alone and followed by probe suffixes
-    suffixes = [[], ["param_update", "eval", "use_cache_on"], ["train", "param_update", "eval", "use_cache_on"], ["eval", "use_cache_on"], ["load_state_dict", "eval", "use_cache_on"]]
+    suffixes = [[], ["param_update", "eval", "use_cache_on"], ["train", "param_update", "eval", "use_cache_on"], ["eval", "use_cache_on"], ["load_state_dict", "eval", "use_cache_on"], ["load_state_dict_via_parent", "eval", "use_cache_on"]]
     rep = {"reproduced": False}
     with stubs.real_torch():
         for suf in suffixes:
@@ -298,6 +313,8 @@ def replay(cname, history, seed=0):
                         p.add_(torch.randn_like(p) * 0.3)
             elif step == "load_state_dict":
                 m.load_state_dict(other.state_dict())
+            elif step == "load_state_dict_via_parent":
+                _Parent(m).load_state_dict({"child." + k: v for k, v in other.state_dict().items()})
             elif step in ("forward", "inverse"):
                 with torch.no_grad():
                     y, l = m(x) if step == "forward" else m.inverse(x)
@@ -320,7 +337,7 @@ def validate_random_histories(n, length, seed):
     examples = []
     for _ in range(n):
         cname = rng.choice(list(CLASSES))
-        hist = [rng.choice(["train", "eval", "use_cache_on", "use_cache_off", "forward", "inverse", "param_update_in_training", "load_state_dict"]) for _ in range(length)]
+        hist = [rng.choice(["train", "eval", "use_cache_on", "use_cache_off", "forward", "inverse", "param_update_in_training", "load_state_dict", "load_state_dict_via_parent"]) for _ in range(length)]
         real = []
         mode_train = True
         for h in hist:
